@@ -190,8 +190,13 @@ def check(case, ctx):
 
     # fix_first is expressed through flags so that a vertex permutation keeps the same vertices fixed
     c1 = copy.deepcopy(case)
+    ffp = False
     if c1["fix_first"]:
-        c1["verts"][0]["fixed"] = True
+        if tr == "perm-vertices":
+            c1["verts"][0]["fixed"] = True  # a permutation must keep the same vertices fixed: express it through flags
+        else:
+            ffp = True  # the first listed vertex is the same physical vertex in both representations
+            ctx.event("fix_first_pose=True")
     c1["fix_first"] = False
     c1["tr"], c1["trp"] = case["tr"], case["trp"]
     c2, vmap, scale = apply_transform(c1)
@@ -218,7 +223,7 @@ def check(case, ctx):
         return ctx.fail("chi2-representation-dependent:" + tr, "chi2 %r vs %r (after /c) under %s (tol %.3e)" % (x1, x2, tr, tol_sum))
 
     # ---- trajectories
-    fixed = GC.expected_fixed(c1, False)
+    fixed = GC.expected_fixed(c1, ffp)
     sys0 = RG.system(g1)
     free = RG.free_indices(g1, fixed)
     cond = float(np.linalg.cond(sys0["H"][np.ix_(free, free)])) if len(free) else 1.0
@@ -244,8 +249,8 @@ def check(case, ctx):
         return False
 
     k = case["k"]
-    ra, _ = GC.optimize_quiet(g1, tol=0.0, max_iter=k, fix_first_pose=False, verbose=False)
-    rb, _ = GC.optimize_quiet(g2, tol=0.0, max_iter=k, fix_first_pose=False, verbose=False)
+    ra, _ = GC.optimize_quiet(g1, tol=0.0, max_iter=k, fix_first_pose=ffp, verbose=False)
+    rb, _ = GC.optimize_quiet(g2, tol=0.0, max_iter=k, fix_first_pose=ffp, verbose=False)
     if not GC.all_finite(g1):
         ctx.event("discarded:nonfinite-base-run")
         return
@@ -271,8 +276,10 @@ def check(case, ctx):
 
     # ---- default optimize() from the start
     g1, g2 = GG.build(c1), GG.build(c2)
-    ra, _ = GC.optimize_quiet(g1, fix_first_pose=False, verbose=False)
-    rb, _ = GC.optimize_quiet(g2, fix_first_pose=False, verbose=False)
+    ra, _ = GC.optimize_quiet(g1, fix_first_pose=ffp, verbose=False)
+    rb, _ = GC.optimize_quiet(g2, fix_first_pose=ffp, verbose=False)
+    if [bool(v.fixed) for v in g1._vertices] != [bool(g2._vertices[vmap[i]].fixed) for i in range(len(g1._vertices))]:
+        return ctx.fail("result-representation-dependent:" + tr, "different vertices are marked fixed after optimize() in the two representations")
     if not GC.all_finite(g1):
         ctx.event("discarded:nonfinite-default-run")
         return
